@@ -631,6 +631,12 @@ func illFormed(t *treq) []mutation {
 		}
 		if t.args[i].kind == 'S' && i > 0 && t.args[i-1].kind == 'F' {
 			out = append(out, mutation{argv: clone()[:i], class: "dangling-pair"})
+			// ... and the dangling half spelled like a word that means something to the command (an option name)
+			for _, w := range []string{"NX", "XX", "GT", "LT", "CH", "INCR", "nx", "Ch", "incr", "WITHSCORES", "LIMIT"} {
+				c := clone()[:i]
+				c[i-1] = []byte(w)
+				out = append(out, mutation{argv: c, class: "dangling-pair"})
+			}
 		}
 	}
 	return out
